@@ -49,10 +49,30 @@ CHECKS = {
          "All 21 kinds in states reached by seeded histories; epochs of an exclusive write phase and a read phase with 2-4 reader tasks running scripts from the full read-only catalogue. Every interleaving decision (every library block is a preemption point) comes from the plan, so a run replays exactly. Oracles: (i) the race detector, which sees the readers as unsynchronised because the handoff synchronisation is hidden from it, reports any write by a reader to memory another reader touches regardless of the interleaving that happened; (ii) every concurrent result equals the result of the same call executed alone; (iii) observable state unchanged by the phase; (iv) a read call that changes the memory image (reflect+unsafe walk) triggers an amplification run of that call on two tasks at every-yield switching. Sampled schedules, happens-before detector.", "4 C18, 3.3"),
 }
 
+# additions after the fourth wave of seeded changes (DESIGN.md 10.2, 10.4)
+EXTRA = {
+ "C01": " Scale runs (33 000-70 000 keys through growth, removal of half, Clear and re-use, closed-form expectations) and a probe of the default constructors over float32, a named float64 with NaN, int8, uint16 and a named string.",
+ "C02": " Scale runs with 200 000-262 144 keys in ascending or descending order (Keys, Values, both iteration directions, Floor/Ceiling, Min/Max by arithmetic); default-constructor probe over other ordered types.",
+ "C04": " Scale runs (33 000-70 000 members); default-constructor probe over other ordered types.",
+ "C05": " One ring run in ten uses capacities 1024-4096 filled to about the capacity in one step; float elements are compared by exact rendering (-0 is not +0).",
+ "C06": " Loads go through FromJSON, UnmarshalJSON and json.Unmarshal; default-constructor probe over other ordered types.",
+ "C07": " TreeBidiMap.GetKey is counted too, with value tables as large as the key table.",
+ "C09": " Scale runs (33 000-70 000 keys in insertion order through removal, Clear and re-use).",
+ "C10": " Scale runs (33 000-70 000 pairs, Get/GetKey by arithmetic, through removal, Clear and re-use).",
+ "C11": " Value shapes include containers as values of containers (recursive ToJSON); the key pools end in pairs that collide under common 32-bit hashes.",
+ "C12": " Two further fault kinds: F15 permuted elements/members and F16 a second member whose name is another spelling of a present key; one large run in three produces documents beyond 64 KiB.",
+ "C13": " Algebra calls with a TreeSet of another comparator function are interleaved (result unjudged, operands and later same-comparator algebra judged); scale runs with operands of 33 000-70 000 members.",
+ "C14": " Float elements (both zeros, infinities, NaN keys for the tree kinds); a result must serialise like a fresh container holding the same elements.",
+ "C15": " Scale runs: Clear of 33 000-70 000 elements compared with a fresh instance.",
+ "C16": " A callee must also leave the slice it was given, and the spare capacity behind it, unchanged.",
+ "C17": " The catalogue includes containers as values of containers (a call that blocks for ever is reported through the Go runtime's deadlock fatal error, confirmed from the regenerated plan) and algebra between TreeSets of different comparator functions.",
+ "C18": " Peak-and-shrink runs (Fill to 1100-3000, one bulk removal), deep-tree runs (8192+ ascending keys; both readers run the whole read catalogue in the same order before any sequential reference call) and Contains with 33-48 arguments.",
+}
+
 NOTE = ("Trusted: Go toolchain and encoding/json; the go/ast instrumentation of the scratch copy (selftest transparency); the reference models and "
         "oracles in /verif/worker as readings of the statement. Bounds: element tables of 4-64 (thorough up to 512; C07 up to 4096) keys, histories of "
-        "10-400 (thorough up to 3000) operations, plus large-size runs (128-1024 keys, bulk prefill to 2200 elements, variadic lists to 140); element types "
-        "int, string, struct, float64 (NaN, Inf, both zeros; comparator-based kinds); comparators natural, reversed, coarsened, and two whose results are not -1/0/1; "
+        "10-400 (thorough up to 3000) operations, plus large-size runs (128-1024 keys, bulk prefill to 2200 elements, variadic lists to 140), huge runs (20 000-60 000 elements, sequence containers and sets) and scale runs (33 000-262 144 keys, closed-form expectations); element types "
+        "int, string, struct, float64 (NaN, Inf, both zeros; comparator-based kinds); comparators natural, reversed, coarsened, and four whose results are not -1/0/1 or that disagree with ==; "
         "sampled, not exhaustive (DESIGN.md 10.2, 10.5).")
 
 def main():
@@ -60,6 +80,7 @@ def main():
     checks = []
     for pid in claimed:
         cat, tech, text, ref = CHECKS[pid]
+        text += EXTRA.get(pid, "")
         checks.append({
             "property_id": pid,
             "quick_cmd": f"bin/godsim check {pid} --tier quick",
